@@ -2,8 +2,8 @@
    Only statements, each closed by `exact <lemma>`, with Print Assumptions beneath. *)
 From Common Require Import Bytes Outcome.
 From Scale Require Import Compact CompactProofs Types Spec Codec EncodeProofs MonadLemmas RoundTrip Prefix Total Cost.
-From Scale Require Import WellTyped CostExcess.
-From C12 Require Import Model Proofs ProofsExcess.
+From Scale Require Import WellTyped CostExcess CostDeclared.
+From C12 Require Import Model Proofs ProofsExcess ProofsDeclared.
 Local Open Scope N_scope.
 
 (* Universe: Scale/Types.v; specification: Scale/Spec.v; model of pkg/scale decode.go:
@@ -115,6 +115,38 @@ Example C12_alloc_excess_nonvacuous :
   16383 <= decode_cost current TBytes bs /\
   decode_cost current TBytes bs <= (ca TBytes + cb TBytes) * (1 + len bs) + bytes_total v.
 Proof. exact alloc_excess_witness. Qed.
+
+(* closer: the same for EVERY input and every well-formed type, maps included, whatever the outcome
+   (failing decodes too).  declared_total t bs = Scale.CostDeclared.declared current t bs is a walker
+   over the input: it follows the decoder and sums the byte-string lengths decodeBytes accepts
+   (passes to make) on the way, whether or not the read that follows or a later component fails.
+   The current tree requests at most the linear bound plus that sum; on a successful decode of a
+   map-free type the sum is bytes_total of the returned value (C12_alloc_excess is that case). *)
+Theorem C12_alloc_declared : forall t bs,
+  wf_ty t = true ->
+  decode_cost current t bs <= (ca t + cb t) * (1 + len bs) + declared_total t bs.
+Proof. exact alloc_declared. Qed.
+Print Assumptions C12_alloc_declared.
+
+Theorem C12_alloc_declared_success : forall t bs v r,
+  map_free t = true -> decode_res current t bs = Ok (v, r) -> declared_total t bs = bytes_total v.
+Proof. exact declared_success. Qed.
+Print Assumptions C12_alloc_declared_success.
+
+(* non-vacuity: a failing decode whose accepted 16 383 bytes appear in no result, and a map with
+   a repeated key whose dropped value is still counted *)
+Example C12_alloc_declared_nonvacuous :
+  let t1 := TStruct (TCons None TBytes (TCons None TU8 TNil)) in
+  let bs1 := [b 253; b 255; b 65] in
+  let t2 := TMap TU8 TBytes in
+  let bs2 := [b 8; b 1; b 8; b 65; b 66; b 1; b 4; b 67] in
+  (wf_ty t1 = true /\ decode_res current t1 bs1 = Err 1%nat /\ declared_total t1 bs1 = 16383 /\
+   16383 <= decode_cost current t1 bs1 /\
+   decode_cost current t1 bs1 <= (ca t1 + cb t1) * (1 + len bs1) + declared_total t1 bs1) /\
+  (wf_ty t2 = true /\
+   decode_res current t2 bs2 = Ok (VMap (KCons (VN 1) (VBytes [b 67]) KNil), []) /\
+   bytes_total (VMap (KCons (VN 1) (VBytes [b 67]) KNil)) = 1 /\ declared_total t2 bs2 = 3).
+Proof. exact alloc_declared_witness. Qed.
 
 (* finding bytes-overrun: with []byte the current tree has no such bound *)
 Theorem C12_alloc_refuted :
